@@ -232,6 +232,26 @@ Section Store.
     end.
 End Store.
 
+(* ------------------------------------------------------------------ swap / assignment of views and arrays *)
+(* an mdspan is the pair (data handle = position of its first element in the storage, mapping);
+   friend swap(x, y) exchanges data_handle_, mapping_ and accessor_; x = y copies all three *)
+Definition c14_view := (Z * c14_mapping)%type.
+Definition c14_view_offset (v : c14_view) (idx : list Z) : Z := c14_mdspan_offset (fst v) (snd v) idx.
+Definition c14_view_swap (x y : c14_view) : c14_view * c14_view := (y, x).
+Definition c14_view_assign (x y : c14_view) : c14_view * c14_view := (y, y).     (* x = y  or  x = std::move(y) *)
+(* an mdarray is the pair (container, mapping); swap exchanges both members, assignment copies both *)
+Definition c14_array (T : Type) := (list T * c14_mapping)%type.
+Definition c14_array_swap {T} (x y : c14_array T) : c14_array T * c14_array T := (y, x).
+Definition c14_array_assign {T} (x y : c14_array T) : c14_array T * c14_array T := (y, y).
+Definition c14_array_get {T} (x : c14_array T) (idx : list Z) : option T := c14_mdarray_get (fst x) (snd x) idx.
+(* operator== of mappings: layout_left/right compare extents, layout_stride extents and strides (rank 0: true) *)
+Definition c14_mapping_eqb (a b : c14_mapping) : bool :=
+  c14_extents_eqb (c14_ext a) (c14_ext b) &&
+  match c14_lay a with
+  | C14_Stride => match c14_ext a with [] => true | _ => c14_extents_eqb (c14_strides_of a) (c14_strides_of b) end
+  | _ => true
+  end.
+
 (* ------------------------------------------------------------------ span<T, Extent> on a store *)
 Record c14_span := C14_Span { c14_sp_off : Z; c14_sp_len : Z }.
 (* None = an assert of span.hh fails (precondition) *)
